@@ -433,6 +433,11 @@ struct Run<'a> {
     kept: HashMap<u64, ReaderHandle>,
     cid_off: u64,
     last_cid: u64,
+    /// a clean close (drop with commits still queued) was performed at a Close step: the model's drain steps
+    /// that follow happened inside that drop
+    closing: bool,
+    /// what the log-worker code did inside that drop: (commit id, id it was deferred to)
+    close_log: std::collections::VecDeque<(u64, Option<u64>)>,
     crashes: usize,
     events: Arc<Mutex<Vec<(String, Vec<u64>)>>>,
     /// fine-grained schedules: the log worker's step runs on its own thread and is held at
@@ -687,6 +692,24 @@ impl<'a> Run<'a> {
     fn step(&mut self, st: &J) -> Result<(), String> {
         let u = self.u;
         let a = st["a"].as_str().unwrap();
+        if self.closing && matches!(a, "Defer" | "Process" | "Pop" | "Apply") {
+            // a drain step of the clean close: it happened inside drop(); compare with what the hooks saw there
+            if a == "Apply" {
+                return Ok(())
+            }
+            let cid = st["cid"].as_u64().unwrap() - self.cid_off;
+            let want = if a == "Defer" {
+                let ncid = st["ncid"].as_u64().unwrap();
+                self.last_cid = self.last_cid.max(ncid);
+                (cid, Some(ncid - self.cid_off))
+            } else {
+                (cid, None)
+            };
+            return match self.close_log.pop_front() {
+                Some(got) if got == want => Ok(()),
+                got => Err(format!("drop() with queued commits: the specification's drain step is {want:?} (commit, deferred to), the log worker code did {got:?}")),
+            }
+        }
         match a {
             "Commit" => {
                 let tx = &st["tx"];
@@ -822,6 +845,40 @@ impl<'a> Run<'a> {
                     _ => db.clean_logs().map(|_| ()).map_err(|e| format!("clean_logs: {e}")),
                 }
             },
+            "Close" => {
+                // drop() with a non-empty queue: it must log every queued commit (deferring where it has to),
+                // apply everything and persist it; nothing is drained beforehand
+                for (_, h) in self.kept.drain() {
+                    h.unlock();
+                }
+                let db = self.db.take().unwrap();
+                let d = match Arc::try_unwrap(db) {
+                    Ok(d) => d,
+                    Err(_) => return Err("harness: database handle still shared at close".into()),
+                };
+                let (r, ev) = self.with_events(|| catch(move || drop(d)));
+                r.map_err(|p| format!("panic in drop: {p}"))?;
+                self.close_log.clear();
+                for e in ev.iter() {
+                    if e.0 == "Pop" {
+                        self.close_log.push_back((e.1[0], None));
+                    } else if e.0 == "Defer" {
+                        if let Some(l) = self.close_log.back_mut() {
+                            l.1 = Some(e.1[1]);
+                        }
+                    }
+                }
+                self.closing = true;
+                self.open()
+            },
+            "Reopen" => {
+                self.closing = false;
+                if !self.close_log.is_empty() {
+                    return Err(format!("drop() processed more commits than the specification's drain: {:?}", self.close_log))
+                }
+                self.cid_off = self.last_cid;
+                Ok(())
+            },
             "Restart" => {
                 for (_, h) in self.kept.drain() {
                     h.unlock();
@@ -905,7 +962,7 @@ pub fn cmd_replay(args: &HashMap<String, String>) -> i32 {
         let obs = b["obs"].as_array().unwrap();
         let u = Univ { seed: mix(seed, idx as u64), v: v.clone() };
         let dir = fresh_dir(&root, &format!("mt{idx}"));
-        let mut run = Run { u: &u, dir: dir.clone(), db: None, bind: Binding::default(), readers: HashMap::new(), kept: HashMap::new(), cid_off: 0, last_cid: 0, crashes: 0,
+        let mut run = Run { u: &u, dir: dir.clone(), db: None, bind: Binding::default(), readers: HashMap::new(), kept: HashMap::new(), cid_off: 0, last_cid: 0, closing: false, close_log: Default::default(), crashes: 0,
                             events: Arc::new(Mutex::new(Vec::new())), gate: Arc::new(Mutex::new(None)), worker: None };
         run.install_sink();
         let mut viol: Vec<J> = Vec::new();
@@ -924,7 +981,10 @@ pub fn cmd_replay(args: &HashMap<String, String>) -> i32 {
                 if a == "Defer" || (a == "Commit" && st["tx"]["tree"]["incs"].as_array().map_or(false, |x| !x.is_empty())) {
                     nontrivial = true;
                 }
-                let r = catch(|| run.step(st).and_then(|_| run.observe(o, nt, nx)).and_then(|_| {
+                let r = catch(|| run.step(st).and_then(|_| if run.closing { Ok(()) } else { run.observe(o, nt, nx) }).and_then(|_| {
+                    if run.closing {
+                        return Ok(())
+                    }
                     // (quiescent: nothing queued and nothing taken by a parked log worker)
                     if o["quiescent"].as_bool() == Some(true) && (a == "Restart" || i + 1 == steps.len() || i % 5 == 4) && run.readers.is_empty() {
                         run.drain().and_then(|_| run.check_counts(o)).and_then(|_| run.check_structure(o)).map(|orph| {
@@ -1384,7 +1444,7 @@ pub fn cmd_record(args: &HashMap<String, String>) -> i32 {
     let u = Univ { seed: mix(seed, 99), v: Variant { pads: false, ..v.clone() } };
     let root = scratch_root();
     let dir = fresh_dir(&root, "mtrec");
-    let mut run = Run { u: &u, dir: dir.clone(), db: None, bind: Binding::default(), readers: HashMap::new(), kept: HashMap::new(), cid_off: 0, last_cid: 0, crashes: 0,
+    let mut run = Run { u: &u, dir: dir.clone(), db: None, bind: Binding::default(), readers: HashMap::new(), kept: HashMap::new(), cid_off: 0, last_cid: 0, closing: false, close_log: Default::default(), crashes: 0,
                         events: Arc::new(Mutex::new(Vec::new())), gate: Arc::new(Mutex::new(None)), worker: None };
     run.install_sink();
     let mut rng = rand::rngs::SmallRng::seed_from_u64(seed ^ 0x51ed);
